@@ -34,7 +34,9 @@ fn class_code(c: StunClass) -> u64 {
 }
 
 fn call_stun(b: &[u8]) -> String {
-    match StunMessage::decode(b) {
+    let r = StunMessage::decode(b);
+    super::mark_alloc();
+    match r {
         Ok(d) => {
             let mut v = vec![method_code(d.method), class_code(d.class), fold_bytes(&d.transaction_id)];
             addr_digest(&d.xor_mapped_address, &mut v);
@@ -54,6 +56,7 @@ fn call_stun(b: &[u8]) -> String {
 fn call_stunmi(b: &[u8]) -> String {
     // key = the one `gen_stun` signs with when it signs; outcome class only
     let _ = verify_message_integrity(b, &MI_KEY);
+    super::mark_alloc();
     "ok ".into()
 }
 const MI_KEY: [u8; 16] = [7; 16];
@@ -68,10 +71,12 @@ fn gen_stun_mi(rng: &mut Rng) -> Vec<u8> {
     v
 }
 fn call_ufrag(b: &[u8]) -> String {
-    match rustrtc::verif_hooks::decoders::peer_ufrag_from_binding_request(b) { None => "ok none".into(), Some(s) => format!("ok some {}", hex(s.as_bytes())) }
+    let r = rustrtc::verif_hooks::decoders::peer_ufrag_from_binding_request(b); super::mark_alloc();
+    match r { None => "ok none".into(), Some(s) => format!("ok some {}", hex(s.as_bytes())) }
 }
 fn call_uname(b: &[u8]) -> String {
-    match rustrtc::verif_hooks::decoders::username_from_stun_bytes(b) { None => "ok none".into(), Some(s) => format!("ok some {}", hex(s.as_bytes())) }
+    let r = rustrtc::verif_hooks::decoders::username_from_stun_bytes(b); super::mark_alloc();
+    match r { None => "ok none".into(), Some(s) => format!("ok some {}", hex(s.as_bytes())) }
 }
 
 fn gen_addr(rng: &mut Rng) -> SocketAddr {
@@ -143,10 +148,10 @@ fn gen_binding_req(rng: &mut Rng) -> Vec<u8> {
 
 pub fn targets() -> Vec<Target> {
     vec![
-        Target { stream: "stun", entry: "StunMessage::decode", call: call_stun, valid: gen_stun, alloc: Some((1, 64)), weight: 3 },
-        Target { stream: "stunmi", entry: "verify_message_integrity", call: call_stunmi, valid: gen_stun_mi, alloc: Some((1, 64)), weight: 1 },
-        Target { stream: "ufrag", entry: "peer_ufrag_from_binding_request", call: call_ufrag, valid: gen_binding_req, alloc: Some((2, 64)), weight: 1 },
-        Target { stream: "uname", entry: "username_from_stun_bytes", call: call_uname, valid: gen_binding_req, alloc: Some((1, 64)), weight: 1 },
+        Target { stream: "stun", entry: "StunMessage::decode", call: call_stun, valid: gen_stun, alloc: Some((1, 0)), weight: 3 },
+        Target { stream: "stunmi", entry: "verify_message_integrity", call: call_stunmi, valid: gen_stun_mi, alloc: Some((1, 20)), weight: 1 },
+        Target { stream: "ufrag", entry: "peer_ufrag_from_binding_request", call: call_ufrag, valid: gen_binding_req, alloc: Some((2, 0)), weight: 1 },
+        Target { stream: "uname", entry: "username_from_stun_bytes", call: call_uname, valid: gen_binding_req, alloc: Some((1, 0)), weight: 1 },
     ]
 }
 
@@ -241,9 +246,12 @@ pub fn run_turntcp(run: &mut Run, live: &Live, buf_len: usize, len: u16, provide
 
 fn run_rtx(run: &mut Run, payload: &[u8], nt: bool) {
     let p = payload.to_vec();
-    exec(run, "rtx", &hex(payload), "unwrap_rtx_packet", nt, Some((0, 256, 0)), move || {
+    exec(run, "rtx", &hex(payload), "unwrap_rtx_packet", nt, Some((0, 0, 0)), move || {
         let pkt = rustrtc::rtp::RtpPacket::new(rustrtc::rtp::RtpHeader::new(97, 5, 6, 7), p);
-        match rustrtc::rtx::unwrap_rtx_packet(&pkt, 1234, 96) {
+        super::start_alloc();
+        let r = rustrtc::rtx::unwrap_rtx_packet(&pkt, 1234, 96);
+        super::mark_alloc();
+        match r {
             None => "ok none".into(),
             Some(o) => { assert_eq!(rustrtc::rtx::decode_osn(&pkt.payload), Some(o.header.sequence_number)); format!("ok {} {}", o.header.sequence_number, o.payload.len()) }
         }
